@@ -10,7 +10,7 @@ def any_tier(S, cfg, name="self"):
 
 
 # usingRE=True (re.findall) is outside the engine's string model: decided by the bounded check c15_queries
-contract(TT + ".find", serves=["C15"], spec_module="spec.queries",
+contract(TT + ".find", serves=["C15", "C13"], spec_module="spec.queries",
          configs={"tier": ["interval", "point"], "substrMatchFlag": [False, True]},
          inputs=lambda S, cfg: dict(self=any_tier(S, cfg), matchLabel=S.str("matchLabel"),
                                     substrMatchFlag=cfg["substrMatchFlag"], usingRE=False),
@@ -18,7 +18,7 @@ contract(TT + ".find", serves=["C15"], spec_module="spec.queries",
 
 # "on a tier with entries" is part of the property statement; 0 <= minTimestamp is the class invariant of a
 # tier built from non-negative times
-contract(IT + ".getNonEntries", serves=["C15"], spec_module="spec.queries",
+contract(IT + ".getNonEntries", serves=["C15", "C13"], spec_module="spec.queries",
          inputs=lambda S, cfg: dict(self=wf_interval_tier(S, "self")),
          requires=["len(self._entries) > 0", "0 <= self.minTimestamp"],
          spec="spec.queries.getNonEntries", frame=["self"], engine_opts={"touch": True, "successor": True},
@@ -47,13 +47,13 @@ def any_point_tier(S, name="self"):
                  errorReporter=S.I.get_function("praatio.utilities.utils.reportWarning"))
 
 
-contract(IT + ".validate", serves=["C15", "C05"], spec_module="spec.queries",
+contract(IT + ".validate", serves=["C15", "C05", "C13"], spec_module="spec.queries",
          configs={"reportingMode": ["silence", "warning", "bogus"]},
          inputs=lambda S, cfg: dict(self=any_interval_tier(S), reportingMode=cfg["reportingMode"]),
          loops={"loop#1": {"carried": {"previousInterval": "(self.entries[j - 1] if j > 0 else None)"}}},
          spec="spec.queries.IntervalTier_validate", frame=["self"], engine_opts={"touch": True, "successor": True})
 
-contract(PT + ".validate", serves=["C15", "C05"], spec_module="spec.queries",
+contract(PT + ".validate", serves=["C15", "C05", "C13"], spec_module="spec.queries",
          configs={"reportingMode": ["silence", "warning", "bogus"]},
          inputs=lambda S, cfg: dict(self=any_point_tier(S), reportingMode=cfg["reportingMode"]),
          loops={"loop#1": {"carried": {"previousPoint": "(self.entries[j - 1] if j > 0 else None)"}}},
@@ -62,13 +62,13 @@ contract(PT + ".validate", serves=["C15", "C05"], spec_module="spec.queries",
 # ---- timestamps: the strictly sorted set of all boundary times.  list(set(xs)) is the Dedup term of pyvc/core.py
 # (distinct values of xs in unspecified order); the two inclusions are proof-only (`subset`): if they stop being
 # provable the obligation is *unsupported*, and the native differential check decides
-contract(PT + ".timestamps", serves=["C15"], spec_module="spec.queries",
+contract(PT + ".timestamps", serves=["C15", "C13"], spec_module="spec.queries",
          inputs=lambda S, cfg: dict(self=wf_point_tier(S, "self")),
          frame=["self"], engine_opts={"sorted_forward": True},
          ensures=[("strictly-sorted", "adjacent(result, lambda a, b: a < b)"),
                   ("only-boundaries", "subset(result, point_times(self))"),
                   ("all-boundaries", "subset(point_times(self), result)")])
-contract(IT + ".timestamps", serves=["C15"], spec_module="spec.queries",
+contract(IT + ".timestamps", serves=["C15", "C13"], spec_module="spec.queries",
          inputs=lambda S, cfg: dict(self=wf_interval_tier(S, "self")),
          frame=["self"], engine_opts={"sorted_forward": True},
          ensures=[("strictly-sorted", "adjacent(result, lambda a, b: a < b)"),
